@@ -46,6 +46,15 @@ pub fn offer(ctx: &mut Ctx, it: &Item, types: &[Ty], nstyles: usize, strict: boo
                     let tb = rcbor::det(&tagged);
                     decode_oracle_ex(ctx, *ty, &tb, "from_tagged_slice", strict, true);
                 }
+                // a tag around the item (self-described CBOR, embedded CBOR, CWT, ...) is not the item
+                if ctx.idx % 4 == 0 {
+                    for w in [55799u64, 24, 61] {
+                        let wb = rcbor::det(&Item::Tag(w, Box::new(it.clone())));
+                        decode_oracle_ex(ctx, *ty, &wb, "from_slice(tag-wrapped)", false, false);
+                    }
+                    let eb = rcbor::det(&Item::Tag(24, Box::new(Item::Bytes(bytes.clone()))));
+                    decode_oracle_ex(ctx, *ty, &eb, "from_slice(24(bstr))", false, false);
+                }
             }
         }
     }
